@@ -20,7 +20,8 @@ vars == <<sh, sg, chk, lastkf, hung, hist>>
 View == <<[sh EXCEPT !.st = EmptyStats, !.gen = 0], sg.gone, chk, lastkf, hung, Len(hist)>>
 
 Mk(s, i) == [id |-> i, kind |-> s.kind, vis |-> s.vis, hid |-> s.hid, thr |-> s.thr, amt |-> s.amt,
-             auto |-> s.auto, ts |-> s.ts, side |-> s.side, px |-> Price, par |-> "GTC"]
+             auto |-> s.auto, ts |-> s.ts, side |-> s.side, px |-> Price,
+             par |-> IF s.kind = "TrailingStop" THEN "GTC|5|100" ELSE IF s.kind = "Pegged" THEN "GTC|-3|BestBid" ELSE "GTC"]
 
 CallsFrom(s) ==
   {[op |-> "add", o |-> Mk(x, i)] : x \in Shapes, i \in Ids \ Live(s.qmap)}
